@@ -1366,6 +1366,15 @@ int32_t pstm_div_2d(psPool_t *pool, const pstm_int *a, int16_t b, pstm_int *c,
         }
         return PSTM_OKAY;
     }
+    /* if the quotient overwrites a, take the remainder first */
+    if (d != NULL && c == a)
+    {
+        if (pstm_mod_2d(a, b, d) != PSTM_OKAY)
+        {
+            return PS_MEM_FAIL;
+        }
+        d = NULL;
+    }
     /* copy */
     if (pstm_copy(a, c) != PSTM_OKAY)
     {
